@@ -39,6 +39,8 @@ class C06(Monitor):
             return self._call(w, e, s)
         if s.snap['closed'] or len(s.units) != 1:
             return
+        if s.quirk:
+            return
         if not s.ok and s.trailing >= 9:
             return      # the error may belong to the header of the next, still incomplete frame
         f = s.units[0]
